@@ -73,6 +73,21 @@ structure WF (fs : Fs) : Prop where
     ns.Nodup ∧ ∀ n, n ∈ ns ↔ (validName n = true ∧ fs.exist (pre ++ n) = true)
   prefixClosed : ∀ p q, fs.exist (p ++ '/' :: q) = true → fs.exist p = true
 
+/-- what a returned name may be for the component `c`, whatever the file system says: a component
+    that is not a pattern contributes exactly its text; a pattern component contributes a name
+    other than `.` and `..` that the pattern matches -/
+def fits (m : Matcher) (c : List AttrChar) (n : Name) : Prop :=
+  match m.kind (toPattern c) with
+  | Kind.invalid => n = removeQuotes c
+  | Kind.literal s => n = s
+  | Kind.pattern => n ≠ dot ∧ n ≠ dotdot ∧ m.isMatch (toPattern c) n = true
+
+/-- one fitting name per component -/
+def namesFit (m : Matcher) : List AttrChar → List (List AttrChar) → List Name → Prop
+  | c, [], [n] => fits m c n
+  | c, c' :: cs, n :: ns => fits m c n ∧ namesFit m c' cs ns
+  | _, _, _ => False
+
 /-! ### executable brute-force version over a finite set of names -/
 
 /-- candidate names for one component -/
